@@ -7,6 +7,7 @@ import TephraModel.Spec.Peg
 import TephraModel.Spec.Ctx
 import TephraModel.Spec.Bracket
 import TephraModel.Spec.Canon
+import TephraModel.Spec.ListSpec
 
 namespace Tephra.Fam.Oracles
 open Tephra Tephra.Wire Tephra.Fam.RunF
@@ -288,14 +289,6 @@ def recoverOracle (c : Case) (impl : String) : String :=
 
 /-! ### C11: delimited lists parse segment by segment -/
 
-/-- split a token list at separators -/
-def splitAtSep (sep : Nat) : List (Spec.RawTok Tok) → List (List (Spec.RawTok Tok))
-  | [] => [[]]
-  | r :: rest =>
-    match splitAtSep sep rest with
-    | seg :: segs => if r.tok.kind == sep then [] :: seg :: segs else (r :: seg) :: segs
-    | [] => [[r]]
-
 def listOracle (c : Case) (impl : String) : String :=
   match c.g, parseObs impl with
   | .list v _ lo hi item sep abort, some o =>
@@ -305,39 +298,18 @@ def listOracle (c : Case) (impl : String) : String :=
     if hi == some 0 then "SKIP upper bound 0" else
     let s0 := initialPState c
     let view := s0.view
-    let body := view.takeWhile (fun r => !abort.contains r.tok.kind)
-    let segsAll := splitAtSep sep body
-    let segsAll := if (segsAll.getLast?.map (·.isEmpty)).getD false then segsAll.dropLast else segsAll
-    let segs := match hi with
-      | some h => segsAll.take h
-      | none => segsAll
-    -- the upper bound stops the list right after the `h`-th segment (a following separator is left)
-    let stoppedEarly : Bool := match hi with
-      | some h => decide (segs.length ≥ h)
-      | none => false
-    -- evaluate the item parser on each segment in isolation
-    let evalSeg := fun (seg : List (Spec.RawTok Tok)) =>
-      match Spec.peg c.text 4000 item ⟨seg, .eot, c.filter⟩ with
-      | .ok val s1 => if s1.view.isEmpty then some val else none
-      | _ => none
-    let entries := segs.map evalSeg
+    let ex := Spec.listSpec c.text c.filter hi item sep abort view
+    let entries := ex.entries
     let showEntry := fun (e : Option Val) =>
       match e with
       | some val => if v < 2 then "S(" ++ GWire.showVal val ++ ")" else GWire.showVal val
       | none => if v < 2 then "N" else "D"
     let expVal := "L[" ++ ",".intercalate (entries.map showEntry) ++ "]"
-    let nbad := (entries.filter (·.isNone)).length
+    let nbad := ex.nbad
     let tooFew := entries.length < lo
-    -- where the returned lexer must continue
-    let consumedToks := if stoppedEarly then
-        (segs.map (·.length)).foldl (· + ·) 0 + (segs.length - 1)
-      else body.length
-    let expRest := viewFrom view consumedToks
+    let expRest := viewFrom view ex.consumed
     let res := o.results.headD ""
-    -- F21: a bad last segment that runs to the end of the stream (no separator / abort token after it)
-    let lastBadAtEnd := segs.length == segsAll.length && body.length == view.length &&
-      (match entries.getLast? with | some none => true | _ => false) &&
-      !(match body.getLast? with | some r => r.tok.kind == sep | none => true)
+    let lastBadAtEnd := ex.lastBadAtEnd
     if c.sink then
       let problems :=
         (match okParts res with
